@@ -50,6 +50,13 @@ func (e EnumSchema[S, T]) ValidateCompatibility(typeOrData any) error {
 	if !validValuesMapField.IsValid() {
 		return fmt.Errorf("failed to get values map in enum %T", e)
 	}
+	var selfKey T
+	if validValuesMapField.Kind() != reflect.Map || validValuesMapField.Type().Key().Kind() != reflect.TypeOf(selfKey).Kind() {
+		// Integers convert to strings in Go, so convertibility alone would let an integer enum pass as a string enum.
+		return &ConstraintError{
+			Message: fmt.Sprintf("incompatible enum kind %T for enum %T", typeOrData, e),
+		}
+	}
 	for _, reflectKey := range validValuesMapField.MapKeys() {
 		var defaultValue T
 		defaultType := reflect.TypeOf(defaultValue)
